@@ -2,7 +2,7 @@
    esutil/cosmology/cosmolib.h, cosmolib.c and cosmology.py (fail-closed regex / ast walk).
    Decimal literals appear twice: as the exact rational they denote (R) and as the binary64
    value the compiler / CPython rounds them to (PrimFloat hex literal). *)
-From Coq Require Import Reals ZArith PrimFloat.
+From Coq Require Import Reals ZArith List PrimFloat.
 Definition NPTS : nat := 5.
 Definition VNPTS : nat := 10.
 Definition C_CLIGHT_R : R := (149896229 / 500)%R.
@@ -73,3 +73,27 @@ Definition SCALAR_dV : nat * bool := (5%nat, true).
 Definition WRAP1_dV_vec : nat * bool := (5%nat, true).
 Definition SCALAR_V : nat * bool := (6%nat, true).
 Definition SCALAR_ez_inverse_integral : nat * bool := (8%nat, true).
+(* cosmolib.c, translated statement by statement (binary64; callees and libm functions are parameters) *)
+Section GenCosmolib.
+  Local Open Scope float_scope.
+  Definition ez_inverse_src (flat : bool) (om ol ok : float) (z : float) : float :=
+    let oneplusz := ((0x1.0000000000000p+0) + z) in let ezi := (if flat then (let ezi := ((((om * oneplusz) * oneplusz) * oneplusz) + ol) in ezi) else (let oneplusz2 := (oneplusz * oneplusz) in let ezi := ((((om * oneplusz2) * oneplusz) + (ok * oneplusz2)) + ol) in ezi)) in let ezi := (PrimFloat.sqrt ((0x1.0000000000000p+0) / ezi)) in ezi.
+  Definition ez_inverse_integral_src (xs ws : list float) (fez : float -> float) (zmin zmax : float) : float :=
+    let ezinv_int := (0x0.0p+0) in let f1 := ((zmax - zmin) / (0x1.0000000000000p+1)) in let f2 := ((zmax + zmin) / (0x1.0000000000000p+1)) in let ezinv_int := (0x0.0p+0) in let ezinv_int := fold_left (fun ezinv_int xw => let xi := fst xw in let wi := snd xw in let z := ((xi * f1) + f2) in let ezinv := (fez z) in let ezinv_int := (ezinv_int + ((f1 * ezinv) * wi)) in ezinv_int) (combine xs ws) ezinv_int in ezinv_int.
+  Definition Dc_src (DH : float) (fezint : float -> float -> float) (zmin zmax : float) : float :=
+    (DH * (fezint zmin zmax)).
+  Definition Dm_src (flat : bool) (ok tcfac : float) (fDc : float -> float -> float) (fsinh : float -> float) (fsin : float -> float) (zmin zmax : float) : float :=
+    let d := (fDc zmin zmax) in let d := (if (negb flat) then (let d := (if ((0x0.0p+0) <? ok) then (let d := ((fsinh (d * tcfac)) / tcfac) in d) else (let d := ((fsin (d * tcfac)) / tcfac) in d)) in d) else (d)) in d.
+  Definition Da_src (fDm : float -> float -> float) (zmin zmax : float) : float :=
+    let d := (fDm zmin zmax) in let d := (d / ((0x1.0000000000000p+0) + zmax)) in d.
+  Definition Dl_src (fDm : float -> float -> float) (zmin zmax : float) : float :=
+    let d := (fDm zmin zmax) in let d := (d * ((0x1.0000000000000p+0) + zmax)) in d.
+  Definition dV_src (DH : float) (fDa : float -> float -> float) (fez : float -> float) (z : float) : float :=
+    let oneplusz := ((0x1.0000000000000p+0) + z) in let da := (fDa (0x0.0p+0) z) in let ezinv := (fez z) in let dv := (((((DH * da) * da) * ezinv) * oneplusz) * oneplusz) in dv.
+  Definition V_src (xs ws : list float) (fdV : float -> float) (zmin zmax : float) : float :=
+    let v := (0x0.0p+0) in let f1 := ((zmax - zmin) / (0x1.0000000000000p+1)) in let f2 := ((zmax + zmin) / (0x1.0000000000000p+1)) in let v := fold_left (fun v xw => let xi := fst xw in let wi := snd xw in let z := ((xi * f1) + f2) in let dv := (fdV z) in let v := (v + ((f1 * dv) * wi)) in v) (combine xs ws) v in ((v * (0x1.0000000000000p+2)) * M_PI_F).
+  Definition scinv_src (fDa : float -> float -> float) (zl zs : float) : float :=
+    if (zs <? zl) then (0x0.0p+0) else (let dl := (fDa (0x0.0p+0) zl) in let ds := (fDa (0x0.0p+0) zs) in let dls := (fDa zl zs) in (((dls * dl) / ds) * FOUR_PI_G_OVER_C_SQUARED_F)).
+  Definition tcfac_src (flat : bool) (DH ok : float) : float :=
+    let tcfac := (0x0.0p+0) in let tcfac := (if (negb flat) then (let tcfac := (if ((0x0.0p+0) <? ok) then (let tcfac := ((PrimFloat.sqrt ok) / DH) in tcfac) else (let tcfac := ((PrimFloat.sqrt (- ok)) / DH) in tcfac)) in tcfac) else (tcfac)) in tcfac.
+End GenCosmolib.
